@@ -122,3 +122,64 @@ for _ji in range(len(JUSTIFY)):
     for _oi in range(len(OVERFLOW)):
         _mk(_ji, _oi, ("quick",), 900, 4)
         _mk(_ji, _oi, ("thorough",), 3400, 8)
+
+
+# --- the break-offset kernel on symbolic strings (S, CrossHair) ------------------------------------------------------------
+from rich._wrap import divide_line  # noqa: E402
+from vf.obl import xh  # noqa: E402
+from vf.common import over, ref_width  # noqa: E402
+
+_WSIG = "ab 中"
+
+
+def _mk_divide_line(n, tiers, timeout):
+    def pre(s: str, width: int, fold: bool) -> bool:
+        return len(s) == n and over(s, _WSIG) and 2 <= width <= 6
+
+    @xh("C02-divide_line-len%d" % n, pre=pre, tiers=tiers, timeout=timeout, kind="S", stubs=["S1", "S2"],
+        functions=["rich/_wrap.py:divide_line", "rich/_wrap.py:words", "rich/cells.py:chop_cells", "rich/cells.py:cell_len"],
+        bounds="all strings of length %d over {a, b, space, U+4E2D}, width 2..6, fold on/off: break offsets are strictly increasing "
+               "inside the string; the pieces concatenate to the string; with fold every piece, ignoring its trailing blanks, fits "
+               "the width; a word (maximal run of non-blanks) is cut only if it alone is wider than the width" % n,
+        outside="longer strings; tabs/newlines (handled before divide_line is called)")
+    def h(s: str, width: int, fold: bool) -> bool:
+        offsets = divide_line(s, width, fold=fold)
+        prev = 0
+        for o in offsets:
+            if not (prev < o < len(s)) and not (prev == 0 and 0 < o < len(s)):
+                return False
+            prev = o
+        pieces = []
+        prev = 0
+        for o in offsets + [len(s)]:
+            pieces.append(s[prev:o])
+            prev = o
+        if "".join(pieces) != s:
+            return False
+        if fold:
+            for p in pieces:
+                if ref_width(p.rstrip(" ")) > width:
+                    return False
+        # a cut inside a word only when that word is wider than the width
+        for o in offsets:
+            if s[o - 1] != " " and s[o] != " ":
+                a = o
+                while a > 0 and s[a - 1] != " ":
+                    a -= 1
+                b = o
+                while b < len(s) and s[b] != " ":
+                    b += 1
+                if ref_width(s[a:b]) <= width and fold:
+                    # the word would have fitted on a line of its own, unless leading blanks on its line push it out
+                    lead = a
+                    while lead > 0 and s[lead - 1] == " ":
+                        lead -= 1
+                    if lead != 0 or ref_width(s[0:b]) <= width:
+                        return False
+        return True
+    return h
+
+
+for _n, _t, _to in [(2, ("quick", "thorough"), 120), (3, ("quick", "thorough"), 300), (4, ("quick", "thorough"), 900),
+                    (5, ("thorough",), 2400), (6, ("thorough",), 3400)]:
+    _mk_divide_line(_n, _t, _to)
